@@ -36,6 +36,8 @@ type Summary struct {
 	MapRangesOff []string       `json:"map_ranges_left_alone"`
 	SharedVars   []string       `json:"shared_mutable_variables"`
 	TouchPoints  int            `json:"touch_points"`
+	FieldNotes   int            `json:"field_access_notes"`
+	GuardedTypes []string       `json:"lock_carrying_struct_types"`
 	Notes        []string       `json:"notes,omitempty"`
 	PerPkg       map[string]int `json:"edits_per_package"`
 }
@@ -95,7 +97,9 @@ type Options struct {
 	VschedDir string   // directory holding the vsched sources
 	Extra     []string // extra overlay-added files: "repo-relative-target=source"
 	NoTouch   bool
-	KeepGoIn  map[string]bool // package dirs whose go statements stay free-running
+	// NoFieldNotes switches off the race-check notes on fields of lock-carrying structs
+	NoFieldNotes bool
+	KeepGoIn     map[string]bool // package dirs whose go statements stay free-running
 }
 
 // Run instruments the repository and writes <Out>/overlay.json.
@@ -145,10 +149,11 @@ func Run(o Options) (*Summary, error) {
 			continue
 		}
 		info := &types.Info{
-			Types:  map[ast.Expr]types.TypeAndValue{},
-			Defs:   map[*ast.Ident]types.Object{},
-			Uses:   map[*ast.Ident]types.Object{},
-			Scopes: map[ast.Node]*types.Scope{},
+			Types:      map[ast.Expr]types.TypeAndValue{},
+			Defs:       map[*ast.Ident]types.Object{},
+			Uses:       map[*ast.Ident]types.Object{},
+			Scopes:     map[ast.Node]*types.Scope{},
+			Selections: map[*ast.SelectorExpr]*types.Selection{},
 		}
 		conf := types.Config{Importer: imp, Error: func(err error) {}}
 		pkgPath := "github.com/krotik/ecal/" + dir
